@@ -6,13 +6,14 @@ import H2V.Lemmas.ConnCountsPStreams
 -/
 namespace H2V.Lemmas.ConnCountsP
 open H2V H2V.Model H2V.Model.Conn
+variable {ρ : Bool}
 attribute [local irreducible] wrapSubU32 wrapSubUsize
 
-theorem acceptFlag_ev (s : Streams) (k : Nat) (v : Bool) : Ev s (s.modStream k fun st => { st with isPendingAccept := v }) :=
+theorem acceptFlag_ev (s : Streams) (k : Nat) (v : Bool) : EvB ρ s (s.modStream k fun st => { st with isPendingAccept := v }) :=
   .acceptFlag k v
 
 theorem pushClosure_ev (child : Nat) (h : HeadersIn) (s : Streams) :
-    Ev s ((fun (s : Streams) =>
+    EvB ρ s ((fun (s : Streams) =>
             match s.recvRecvPushPromise child h with
             | (s, .ok) => (s, (Except.ok true : Except PErr Bool))
             | (s, .unsupported) => (s.unsup "promised request URI outside the modelled subset", .ok false)
@@ -23,12 +24,12 @@ theorem pushClosure_ev (child : Nat) (h : HeadersIn) (s : Streams) :
   dsimp only
   ev_auto
 
-theorem recvPushPromise_ev (s : Streams) (id : Nat) (h : HeadersIn) : Ev s (s.recvPushPromise id h).1 := by
+theorem recvPushPromise_ev (s : Streams) (id : Nat) (h : HeadersIn) : EvB true s (s.recvPushPromise id h).1 := by
   unfold Streams.recvPushPromise
   extract_lets promisedId parent
   split
   · exact .refl _
-  · have eP : Ev s parent.1 := by
+  · have eP : EvB true s parent.1 := by
       simp only [parent]
       ev_auto
     clear_value parent
@@ -46,7 +47,7 @@ theorem recvPushPromise_ev (s : Streams) (id : Nat) (h : HeadersIn) : Ev s (s.re
         · next s2 heq =>
           refine .trans (.of_fst_eq heq (recvOpen_ev _ _ _)) ?_
           extract_lets s3
-          have e3 : Ev s2 s3 := by simp only [s3]; ev_auto
+          have e3 : EvB true s2 s3 := by simp only [s3]; ev_auto
           have hc3 : s3.counts = s2.counts := by
             simp only [s3]; split
             · rw [panic_counts]
@@ -58,13 +59,13 @@ theorem recvPushPromise_ev (s : Streams) (id : Nat) (h : HeadersIn) : Ev s (s.re
           dsimp only
           have hstore : store = (s3.store.insert (Stream.new promisedId s3.actions.send.initWindowSz s3.recv.initWindowSz)).1 := by
             rw [hins]
-          have e4 : Ev s3 { s3 with store := store } := by
+          have e4 : EvB true s3 { s3 with store := store } := by
             rw [hstore]
             exact .insert _ (fresh_new _ _ _) (by rw [hc3]; exact recvOpen_remote heq)
           refine .trans e4 ?_
           generalize ({ s3 with store := store } : Streams) = s4
           generalize hT : Streams.transition _ _ _ = T
-          have eT : Ev s4 T.1 := by
+          have eT : EvB true s4 T.1 := by
             rw [← hT]
             exact transition_ev _ _ _ (fun s => pushClosure_ev child h s)
           clear hT
@@ -135,12 +136,12 @@ theorem sendSendReset_notEarly (s : Streams) (k : Nat) (r : Reason) (i : Initiat
       obtain ⟨y, _, rfl⟩ := modStreamW_get?_self s k _ (fun y => setReset_key y r i) x hx
       exact setReset_notEarly y r i
     have hk1 : k < s1.store.nextKey := by
-      have : Ev s s1 := by rw [← hs1]; exact modStreamW_ev' _ _ _ (setReset_same _ _ _)
+      have : EvB true s s1 := by rw [← hs1]; exact modStreamW_ev' _ _ _ (setReset_same _ _ _)
       exact Nat.lt_of_lt_of_le hk this.ne.nextKey
     clear hs1
     split
     · exact h1
-    · refine (Ev.ne ?_).ne k hk1 h1
+    · refine (EvB.ne ?_).ne k hk1 h1
       refine .trans ?_ (reclaimAllCapacity_ev _ _)
       refine .trans ?_ (queueFrame_ev _ _ _ rfl)
       split
@@ -165,7 +166,7 @@ theorem canInc_mono {s s' : Streams} (h : Mono s s') (hc : s'.counts.canIncNumLo
 theorem actionsSendReset_post (s1 : Streams) (k : Nat) (reason : Reason) (hk : k < s1.store.nextKey)
     (herr : ErrOK (s1.actionsSendReset k reason .library).1) :
     ∀ x, (s1.actionsSendReset k reason .library).1.store.get? k = some x → ¬ Early x := by
-  have hmono := (actionsSendReset_ev s1 k reason .library).mono
+  have hmono := (actionsSendReset_ev (ρ := true) s1 k reason .library).mono
   have hc : s1.counts.canIncNumLocalErrorResets = true := canInc_mono hmono herr
   have hT : (s1.actionsSendReset k reason .library).1 =
       ((((s1.modCountsA "can_inc_num_local_error_resets" Counts.incNumLocalErrorResets).sendSendReset k reason .library).enqueueResetExpiration k).modStreamW k Stream.notifyRecv).transitionAfter k (s1.stream k).isPendingResetExpiration := by
@@ -175,14 +176,14 @@ theorem actionsSendReset_post (s1 : Streams) (k : Nat) (reason : Reason) (hk : k
   rw [hT]
   generalize hs2 : s1.modCountsA "can_inc_num_local_error_resets" Counts.incNumLocalErrorResets = s2
   have hk2 : k < s2.store.nextKey := by
-    have : Ev s1 s2 := by rw [← hs2]; exact modCountsA_ev _ _ _ (fun _ h => cstep_incErr h)
+    have : EvB true s1 s2 := by rw [← hs2]; exact modCountsA_ev _ _ _ (fun _ h => cstep_incErr h)
     exact Nat.lt_of_lt_of_le hk this.ne.nextKey
   have h3 := sendSendReset_notEarly s2 k reason .library hk2
-  have e3 : Ev s2 (s2.sendSendReset k reason .library) := sendSendReset_ev _ _ _ _
+  have e3 : EvB true s2 (s2.sendSendReset k reason .library) := sendSendReset_ev _ _ _ _
   have hk3 : k < (s2.sendSendReset k reason .library).store.nextKey := Nat.lt_of_lt_of_le hk2 e3.ne.nextKey
-  refine (Ev.ne ?_).ne k hk3 h3
-  have e12 : Ev s1 s2 := by rw [← hs2]; exact modCountsA_ev _ _ _ (fun _ h => cstep_incErr h)
-  have e4 : Ev (s2.sendSendReset k reason .library)
+  refine (EvB.ne ?_).ne k hk3 h3
+  have e12 : EvB true s1 s2 := by rw [← hs2]; exact modCountsA_ev _ _ _ (fun _ h => cstep_incErr h)
+  have e4 : EvB true (s2.sendSendReset k reason .library)
       (((s2.sendSendReset k reason .library).enqueueResetExpiration k).modStreamW k Stream.notifyRecv) :=
     .trans (enqueueResetExpiration_ev _ _) (modStreamW_ev' _ _ _ (notifyRecv_same _))
   refine .trans e4 ?_
@@ -190,7 +191,7 @@ theorem actionsSendReset_post (s1 : Streams) (k : Nat) (reason : Reason) (hk : k
   intro hb
   exact ((e12.trans (e3.trans e4)).mono.resetAt k hb)
 
-theorem innerSendReset_ev (s : Streams) (id : Nat) (reason : Reason) : Ev s (s.innerSendReset id reason).1 := by
+theorem innerSendReset_ev (s : Streams) (id : Nat) (reason : Reason) : EvB true s (s.innerSendReset id reason).1 := by
   unfold Streams.innerSendReset
   cases hf : s.store.findKey? id with
   | some k =>
@@ -199,7 +200,7 @@ theorem innerSendReset_ev (s : Streams) (id : Nat) (reason : Reason) : Ev s (s.i
   | none =>
     dsimp only
     generalize hs0 : (if s.counts.isLocalInit id = true then s.sendMaybeResetNextStreamId id else s.recvMaybeResetNextStreamId id) = s0
-    have e0 : Ev s s0 := by
+    have e0 : EvB true s s0 := by
       rw [← hs0]
       split
       · next hl => exact sendMaybeResetNextStreamId_ev _ _ hl
@@ -270,13 +271,13 @@ theorem sendHeaders_ok_notEarly {s s' : Streams} {k : Nat} {eos : Bool} {f : Lis
         rw [← hs1] at hx
         obtain ⟨y, _, rfl⟩ := modStream_get?_self' s k (fun st => { st with state := st' }) (fun _ => rfl) x hx
         exact fun h => sendOpen_not_early heq h
-      have e1 : Ev s s1 := by
+      have e1 : EvB true s s1 := by
         rw [← hs1]; exact modStream_ev' _ _ _ (setState_same _ _ (fun h => absurd h (sendOpen_not_early heq)))
       have hk1 : k < s1.store.nextKey := Nat.lt_of_lt_of_le hk e1.ne.nextKey
       clear hs1
       simp only [Prod.mk.injEq] at h
       rw [← h.1]
-      refine (Ev.ne ?_).ne k hk1 h1
+      refine (EvB.ne ?_).ne k hk1 h1
       split
       · next hpo =>
         have hl : s1.counts.isLocalInit (s1.stream k).id = true := by
@@ -294,7 +295,7 @@ theorem fresh_head (st : Stream) (h : Fresh st) (b : Bool) : Fresh (if b = true 
 
 /-- `send_request` behind its checks: the new entry, `send_headers`, the handle (or the clean-up) -/
 theorem sendRequest_core_ev (s1 : Streams) (hA1 : KeysFresh s1) (id : Nat) (isHead eos : Bool) (fields : List Hpack.Field) :
-    Ev s1 (let st := Stream.new id s1.actions.send.initWindowSz s1.recv.initWindowSz
+    EvB true s1 (let st := Stream.new id s1.actions.send.initWindowSz s1.recv.initWindowSz
            let st := if isHead then { st with contentLength := .head } else st
            let s := if s1.store.contains id then s1.panic "assertion failed: self.ids.insert(id, index).is_none()" else s1
            let (store, k) := s.store.insert st
@@ -306,7 +307,7 @@ theorem sendRequest_core_ev (s1 : Streams) (hA1 : KeysFresh s1) (id : Nat) (isHe
              let isFull := s.counts.nextSendStreamWillReachCapacity
              (s.refInc k, .ok (k, isFull))).1 := by
   extract_lets st0 st s2
-  have e2 : Ev s1 s2 := by simp only [s2]; ev_auto
+  have e2 : EvB true s1 s2 := by simp only [s2]; ev_auto
   have hA2 : KeysFresh s2 := by
     have : s2.store = s1.store := by
       simp only [s2]; split
@@ -337,7 +338,7 @@ theorem sendRequest_core_ev (s1 : Streams) (hA1 : KeysFresh s1) (id : Nat) (isHe
     refine .bracket st hfr ?_ ?_
     · rw [hs3]
       refine .trans (.unlink id) ?_
-      refine Ev.remove (s2.store.nextKey) (s4.recvBufferLeaked) ?_
+      refine EvB.remove (s2.store.nextKey) (s4.recvBufferLeaked) ?_
       intro x hx
       have : x = { st with key := s2.store.nextKey } := by
         have h' : s4.store.get? s2.store.nextKey = some x := hx
@@ -350,7 +351,7 @@ theorem sendRequest_core_ev (s1 : Streams) (hA1 : KeysFresh s1) (id : Nat) (isHe
       have hx' : ((s4.store.unlink id).remove s2.store.nextKey).get? s2.store.nextKey = some x := hx
       rw [this] at hx'; cases hx'
   · next s4 u heq =>
-    have e4 : Ev s3 s4 := .of_fst_eq heq (sendHeaders_ev _ _ _ _)
+    have e4 : EvB false s3 s4 := .of_fst_eq heq (sendHeaders_ev _ _ _ _)
     have hne := sendHeaders_ok_notEarly hk3 heq
     refine .bracket st hfr ?_ ?_
     · rw [hs3]
@@ -358,11 +359,11 @@ theorem sendRequest_core_ev (s1 : Streams) (hA1 : KeysFresh s1) (id : Nat) (isHe
       ev_auto
     · intro _
       have hk4 : s2.store.nextKey < s4.store.nextKey := Nat.lt_of_lt_of_le hk3 e4.ne.nextKey
-      refine (Ev.ne ?_).ne _ hk4 hne
+      refine (EvB.ne ?_).ne _ hk4 hne
       ev_auto
 
 theorem sendRequest_ev (s : Streams) (hA : KeysFresh s) (isHead : Bool) (fields : List Hpack.Field) (eos : Bool) (pending : Option Nat) :
-    Ev s (s.sendRequest isHead fields eos pending).1 := by
+    EvB true s (s.sendRequest isHead fields eos pending).1 := by
   unfold Streams.sendRequest
   split
   · exact .refl _
@@ -432,7 +433,7 @@ theorem sendOpenId_ok {s s1 : Streams} {id : Nat} (h : s.sendOpenId = (s1, .ok i
     exact ⟨hx, rfl, rfl⟩
 
 theorem refSendPushPromise_ev (s : Streams) (hA : KeysFresh s) (hN : NextLocal s) (parent : Nat) (valid : Bool)
-    (fields : List Hpack.Field) : Ev s (s.refSendPushPromise parent valid fields).1 := by
+    (fields : List Hpack.Field) : EvB true s (s.refSendPushPromise parent valid fields).1 := by
   unfold Streams.refSendPushPromise Streams.sendReserveLocal
   split
   · next s1 e heq => exact .of_fst_eq heq (sendOpenId_ev _)
@@ -443,7 +444,7 @@ theorem refSendPushPromise_ev (s : Streams) (hA : KeysFresh s) (hN : NextLocal s
     have hA1 : KeysFresh s1 := by unfold KeysFresh; rw [hst1]; exact hA
     clear heq hA hN hnext hc1 hst1
     extract_lets s2
-    have e2 : Ev s1 s2 := by simp only [s2]; ev_auto
+    have e2 : EvB true s1 s2 := by simp only [s2]; ev_auto
     have hA2 : KeysFresh s2 := by
       have : s2.store = s1.store := by
         simp only [s2]; split
@@ -488,7 +489,7 @@ theorem refSendPushPromise_ev (s : Streams) (hA : KeysFresh s) (hN : NextLocal s
     · next st' u heq =>
       have hne' : ¬ (st'.inner = .idle ∨ st'.inner = .reservedRemote) := reserveLocal_not_early heq
       generalize hs4 : (s3.modStream s2.store.nextKey fun st => { st with state := st', isPendingPush := true }) = s4
-      have e4 : Ev s3 s4 := by
+      have e4 : EvB false s3 s4 := by
         rw [← hs4]
         refine modStream_ev _ _ _ (fun x _ => ?_)
         exact ⟨rfl, rfl, rfl, fun q => by cases q <;> rfl, fun h => absurd h hne', fun _ h _ => h⟩
@@ -513,7 +514,7 @@ theorem refSendPushPromise_ev (s : Streams) (hA : KeysFresh s) (hN : NextLocal s
           refine .bracket st hfr ?_ ?_
           · rw [hs3]
             refine .trans e4 (.trans (.unlink pid) ?_)
-            refine Ev.remove (s2.store.nextKey) (s5.recvBufferLeaked) ?_
+            refine EvB.remove (s2.store.nextKey) (s5.recvBufferLeaked) ?_
             intro x hx
             have h' : s5.store.get? s2.store.nextKey = some x := hx
             rw [hget4] at h'; cases h'
@@ -524,15 +525,15 @@ theorem refSendPushPromise_ev (s : Streams) (hA : KeysFresh s) (hN : NextLocal s
             have hx' : ((s5.store.unlink pid).remove s2.store.nextKey).get? s2.store.nextKey = some x := hx
             rw [this] at hx'; cases hx'
         · next s5 u5 heq5 =>
-          have e5 : Ev s4 s5 := .of_fst_eq heq5 (sendPushPromise_ev _ _ _ _ _ hl4)
-          have hne5 := (Ev.ne e5).ne _ hk4 hne4
+          have e5 : EvB false s4 s5 := .of_fst_eq heq5 (sendPushPromise_ev _ _ _ _ _ hl4)
+          have hne5 := (EvB.ne e5).ne _ hk4 hne4
           have hk5 : s2.store.nextKey < s5.store.nextKey := Nat.lt_of_lt_of_le hk4 e5.ne.nextKey
           refine .bracket st hfr ?_ ?_
           · rw [hs3]
             refine .trans e4 (.trans e5 ?_)
             ev_auto
           · intro _
-            refine (Ev.ne ?_).ne _ hk5 hne5
+            refine (EvB.ne ?_).ne _ hk5 hne5
             ev_auto
 
 -- ===================================================================== clear_queues / recv_eof (`EvT`)
@@ -542,7 +543,7 @@ theorem clearQueues_evT (s : Streams) (b : Bool) : EvT s (s.clearQueues b) := by
   exact .trans (recvClearQueues_evT _ _) (.ev (sendClearQueues_ev _))
 
 theorem eofStream_ev (s : Streams) (id : Nat) :
-    Ev s (s.transition id fun s => ((s.recvRecvEof id).sendHandleError id, ())).1 := by
+    EvB ρ s (s.transition id fun s => ((s.recvRecvEof id).sendHandleError id, ())).1 := by
   ev_auto
 
 theorem recvEof_evT (s : Streams) (b : Bool) : EvT s (s.recvEof b) := by
